@@ -99,6 +99,7 @@ type Outcome struct {
 	Results []OVal
 	Err     OVal
 	GoFail  string // escaped panic / hang / interpreter-internal Go panic: a failure by itself
+	Polls   int    // dispatch polls seen by the one-shot fault context (InstrFault runs)
 }
 
 func covals(vs []OVal) string {
@@ -174,6 +175,7 @@ var faultPats = []struct {
 	{regexp.MustCompile(`^can not resume a dead thread`), 8},
 	{regexp.MustCompile(`^can not resume a running thread`), 9},
 	{regexp.MustCompile(`^can not yield from outside of a coroutine`), 10},
+	{regexp.MustCompile(`^injected instruction fault`), 98},
 }
 
 // classifyString maps interpreter-generated messages to fault classes; other strings stay strings.
@@ -240,10 +242,42 @@ func (c *canon) val(v lua.LValue) OVal {
 
 // RunOptions lets a property harness vary the state configuration.
 type RunOptions struct {
-	Options *lua.Options
-	Timeout time.Duration
-	Setup   func(L *lua.LState) // extra host functions
+	Options *lua.Options          `json:"-"`
+	Timeout time.Duration         `json:"timeout,omitempty"`
+	Setup   func(L *lua.LState)   `json:"-"` // extra host functions
+	// fault injection (C05): the EmitFault-th call of emit raises (number -777 at level 0, or the
+	// string "inj" through RaiseError); InstrFault: the main thread's InstrFault-th dispatch poll
+	// finds the context done exactly once (a one-shot runtime fault at an instruction boundary).
+	EmitFault   int  `json:"emit_fault,omitempty"`
+	FaultString bool `json:"fault_string,omitempty"`
+	InstrFault  int  `json:"instr_fault,omitempty"`
+	// Epilogue: after the chunk, the same state must have an empty stack and run a fixed program.
+	Epilogue bool `json:"epilogue,omitempty"`
 }
+
+// oneShot is a context whose Done() is closed for exactly one poll.
+type oneShot struct {
+	context.Context
+	k, n   int
+	closed chan struct{}
+	open   chan struct{}
+}
+
+func newOneShot(parent context.Context, k int) *oneShot {
+	c := make(chan struct{})
+	close(c)
+	return &oneShot{Context: parent, k: k, closed: c, open: make(chan struct{})}
+}
+
+func (o *oneShot) Done() <-chan struct{} {
+	o.n++
+	if o.n == o.k {
+		return o.closed
+	}
+	return o.open
+}
+
+func (o *oneShot) Err() error { return fmt.Errorf("injected instruction fault") }
 
 // Run executes src on a fresh state of the real interpreter and returns its observable outcome.
 func Run(src string, ro *RunOptions) (out *Outcome) {
@@ -261,9 +295,34 @@ func Run(src string, ro *RunOptions) (out *Outcome) {
 	}
 	ctx, cancel := context.WithTimeout(context.Background(), to)
 	defer cancel()
-	L.SetContext(ctx)
+	var shot *oneShot
+	if ro != nil && ro.InstrFault > 0 {
+		shot = newOneShot(context.Background(), ro.InstrFault)
+		L.SetContext(shot)
+		// the wall-clock guard cannot ride on the context here: watchdog closes the state's hope
+		go func() {
+			<-ctx.Done()
+			if ctx.Err() == context.DeadlineExceeded {
+				os.Exit(97) // only ever used inside a child process
+			}
+		}()
+	} else {
+		L.SetContext(ctx)
+	}
+	emitCalls := 0
 	c := newCanon()
 	L.SetGlobal("emit", L.NewFunction(func(L *lua.LState) int {
+		emitCalls++
+		if ro != nil && ro.EmitFault > 0 && emitCalls == ro.EmitFault {
+			out.Trace = append(out.Trace, []OVal{{Kind: "fault", K: 99, I: 0}})
+			out.Lines = append(out.Lines, L.Where(1))
+			if ro.FaultString {
+				L.RaiseError("inj")
+			} else {
+				L.Error(lua.LNumber(-777), 0)
+			}
+			return 0
+		}
 		n := L.GetTop()
 		row := make([]OVal, n)
 		for i := 1; i <= n; i++ {
@@ -320,6 +379,15 @@ func Run(src string, ro *RunOptions) (out *Outcome) {
 			} else {
 				out.Err = classifyString(ae.Error())
 			}
+			if shot != nil {
+				out.Polls = shot.n
+			}
+			if ro != nil && ro.Epilogue {
+				if shot != nil {
+					shot.k = -1
+				}
+				epilogue(L, top, out)
+			}
 			return out
 		}
 		out.Err = OVal{Kind: "str", S: []byte(err.Error())}
@@ -330,7 +398,35 @@ func Run(src string, ro *RunOptions) (out *Outcome) {
 	for i := 1; i <= n; i++ {
 		out.Results = append(out.Results, c.val(L.Get(top+i)))
 	}
+	if shot != nil {
+		out.Polls = shot.n
+	}
+	if ro != nil && ro.Epilogue {
+		if shot != nil {
+			shot.k = -1 // the fault belongs to the chunk, not to the epilogue
+		}
+		epilogue(L, top, out)
+	}
 	return out
+}
+
+// epilogue: the state must be as if nothing had happened — empty value stack, working interpreter.
+func epilogue(L *lua.LState, top int, out *Outcome) {
+	L.SetTop(top)
+	if err := L.DoString(`local t = {} for i = 1, 5 do t[i] = i * i end local function f(...) return select('#', ...), ... end local ok, e = pcall(error, "x") return t[5], f(1, 2), ok, e`); err != nil {
+		out.GoFail = "epilogue failed on the same state: " + trunc(err.Error(), 200)
+		return
+	}
+	want := []string{"25", "2", "false", "x"}
+	if L.GetTop()-top != len(want) {
+		out.GoFail = fmt.Sprintf("epilogue returned %d values", L.GetTop()-top)
+		return
+	}
+	for i, w := range want {
+		if L.Get(top+1+i).String() != w {
+			out.GoFail = fmt.Sprintf("epilogue value %d = %s, want %s", i+1, L.Get(top+1+i).String(), w)
+		}
+	}
 }
 
 func trunc(s string, n int) string {
@@ -342,10 +438,25 @@ func trunc(s string, n int) string {
 
 
 // ChildMain is the body of `<bin> child`: read a program from stdin, run it, print the outcome.
+type childReq struct {
+	Src string      `json:"src"`
+	Opt *RunOptions `json:"opt"`
+}
+
 func ChildMain(ro *RunOptions) {
 	var buf bytes.Buffer
 	buf.ReadFrom(os.Stdin)
-	out := Run(buf.String(), ro)
+	var req childReq
+	if err := json.Unmarshal(buf.Bytes(), &req); err != nil {
+		os.Exit(3)
+	}
+	if req.Opt != nil {
+		if ro != nil {
+			req.Opt.Options, req.Opt.Setup = ro.Options, ro.Setup
+		}
+		ro = req.Opt
+	}
+	out := Run(req.Src, ro)
 	out.Pack()
 	b, _ := json.Marshal(out)
 	os.Stdout.Write(b)
@@ -353,11 +464,12 @@ func ChildMain(ro *RunOptions) {
 
 // RunIsolated runs the program in a child process (`os.Args[0] child`): the interpreter can take
 // the whole process down (Go fatal stack overflow) or hang in ways a context cannot stop.
-func RunIsolated(src string, timeout time.Duration, childArgs ...string) *Outcome {
+func RunIsolated(src string, timeout time.Duration, opt *RunOptions) *Outcome {
 	ctx, cancel := context.WithTimeout(context.Background(), timeout)
 	defer cancel()
-	cmd := exec.CommandContext(ctx, os.Args[0], append([]string{"child"}, childArgs...)...)
-	cmd.Stdin = bytes.NewReader([]byte(src))
+	cmd := exec.CommandContext(ctx, os.Args[0], "child")
+	rb, _ := json.Marshal(childReq{Src: src, Opt: opt})
+	cmd.Stdin = bytes.NewReader(rb)
 	var so, se bytes.Buffer
 	cmd.Stdout = &so
 	cmd.Stderr = &se
